@@ -39,10 +39,6 @@ def reqExtras (raw : List (Str × Str)) : List (Str × List Str) :=
 def impersonationRequested (raw : List (Str × Str)) : Bool :=
   !(reqUser raw).isEmpty || !(reqGroups raw).isEmpty || !(reqExtras raw).isEmpty
 
-/-- groups or extras without a user -/
-def malformed (raw : List (Str × Str)) : Bool :=
-  (reqUser raw).isEmpty && (!(reqGroups raw).isEmpty || !(reqExtras raw).isEmpty)
-
 /-- the check for acting as user `u`: a service account when the name has that form -/
 def userCheck (u : Str) : ImpReq :=
   match splitUsername u with
@@ -66,6 +62,12 @@ def recordOf : ImpReq → Attrs
 
 /-- the exact set of attribute records the policy must allow, computed from the client's header lines alone -/
 def requiredRecords (raw : List (Str × Str)) : List Attrs := (checks raw).map recordOf
+
+/-- a malformed impersonation: groups or extras without a user, or a requested user / namespace / group / extra key /
+    extra value that is not valid UTF-8 (the target cluster could not even be asked about it) -/
+def malformed (raw : List (Str × Str)) : Bool :=
+  ((reqUser raw).isEmpty && (!(reqGroups raw).isEmpty || !(reqExtras raw).isEmpty)) ||
+  (impersonationRequested raw && !(checks raw).all refUTF8)
 
 /-- the cluster's policy `az` allows every required record -/
 def allAllowed (az : Attrs → Decision) (raw : List (Str × Str)) : Bool :=
@@ -169,8 +171,8 @@ inductive Class where
   | clientHeaderForwarded
   /-- the `Impersonate-*` headers differ from the ones the gateway generates for the identity -/
   | impersonationHeaders
-  /-- an impersonation the target cluster refuses was forwarded because the cluster was asked about ANOTHER record: the
-      SubjectAccessReview (JSON) cannot carry a record that is not valid UTF-8 (recorded finding C02-record-not-utf8) -/
+  /-- an impersonation with a name that is not valid UTF-8 was forwarded: the SubjectAccessReview (JSON) cannot carry it, the
+      cluster was asked about ANOTHER record (the repaired defect C02-record-not-utf8, should it return) -/
   | recordNotUTF8
   /-- the upstream is told to act as another identity -/
   | identityMismatch
@@ -224,17 +226,16 @@ def judge (token : Str) (upgrade : Bool) (e : Expect) (upstream : List Headers) 
 def recordsCarried (raw : List (Str × Str)) : Bool := (requiredRecords raw).all (fun a => jsonAttrs a == a)
 
 /-- The property, judged against what the target cluster answers about the EXACT required records (`policy`), whoever the
-    requestor is: a request the cluster's policy refuses must not be forwarded. The one recorded deviation is named: the
-    cluster would have allowed the records as JSON carries them. -/
+    requestor is: a request the cluster's policy refuses, or a malformed one, must not be forwarded. The repaired defect
+    C02-record-not-utf8 is named should it return: a requested name that is not valid UTF-8 was forwarded (the cluster cannot
+    have been asked about it). -/
 def judgeCluster (token : Str) (upgrade : Bool) (raw : List (Str × Str)) (auth : Option Identity)
     (policy : Attrs → Decision) (upstream : List Headers) : List Class :=
   match expectedFor raw auth policy with
-  | .answered s =>
+  | .answered _ =>
     if upstream.isEmpty then []
-    else match expectedFor raw auth (fun a => policy (jsonAttrs a)) with
-      | .forward id => if s = 403 then Class.recordNotUTF8 :: upstream.flatMap (judgeForward token upgrade id)
-                       else [Class.forwardedUnapproved]
-      | .answered _ => [Class.forwardedUnapproved]
+    else if impersonationRequested raw && !(checks raw).all refUTF8 then [Class.recordNotUTF8]
+    else [Class.forwardedUnapproved]
   | .forward id => upstream.flatMap (judgeForward token upgrade id)
 
 /-- what the upstream received, as the judge takes it -/
